@@ -138,8 +138,12 @@ type IOFault struct {
 }
 
 type Stall struct {
-	M      Match  `json:"match"`
-	ParkNS int64  `json:"park_ns"`
+	M      Match `json:"match"`
+	ParkNS int64 `json:"park_ns"`
+	// AfterOp, when set, arms the stall only once the operation with that id has been
+	// issued; Nth then counts matching yields from that moment, and the stall fires once.
+	// This is how a plan parks the handling of one particular request (say across an expiry).
+	AfterOp int `json:"after_op,omitempty"`
 }
 
 // Reaction tells the scripted TURN server how to treat a request.
